@@ -556,6 +556,20 @@ def st_dadd(kind):
         ge_write(ex, out, elem(ex, kind, x.dlog + y.dlog, x.tors + y.tors, False))
     return f
 
+def st_dadd_affine(kind):
+    """POINTonE?_dadd_affine(out, p, q): mixed addition; BLST's contract requires q in affine form (Z = 1).
+    A second operand that is not known to be affine gives an unrelated group element (fresh discrete log)."""
+    def f(L, ex, a, I):
+        out, p, q = a[0], a[1], a[2]
+        x, y = ge_read(ex, L, p, kind), ge_read(ex, L, q, kind)
+        if y.aff:
+            ge_write(ex, out, elem(ex, kind, x.dlog + y.dlog, x.tors + y.tors, False))
+        else:
+            g = new_gen(ex, 'gx')
+            mvar(ex, (g,))
+            ge_write(ex, out, elem(ex, kind, Poly.gen(g), ZERO, False))
+    return f
+
 def st_double(kind):
     def f(L, ex, a, I):
         x = ge_read(ex, L, a[1], kind)
@@ -801,6 +815,7 @@ def install(L):
     S = L.stubs
     for kind, pfx in (('g1', 'POINTonE1'), ('g2', 'POINTonE2')):
         S['@%s_dadd' % pfx] = st_dadd(kind)
+        S['@%s_dadd_affine' % pfx] = st_dadd_affine(kind)
         S['@%s_double' % pfx] = st_double(kind)
         S['@%s_cneg' % pfx] = st_cneg(kind)
         S['@%s_from_Jacobian' % pfx] = st_from_jacobian(kind)
@@ -834,6 +849,7 @@ def install(L):
         S[n] = st_redc_alg(S[n])
 
 TRUSTED = [
+ 'POINTonE1/E2 dadd_affine: the group law when the second operand is in affine form (BLST contract), an unrelated element otherwise',
  'POINTonE1/E2 dadd, double, cneg, mult_glv/gls, from_Jacobian, is_equal, in_G1/in_G2, blst_p1s_mult_pippenger: group law on (discrete log, torsion part) as exact polynomials over Z_r',
  'map_to_g1: torsion-free point with one fresh discrete-log generator per distinct (u0,u1); never the identity',
  'miller_loop_n + mul_fp12 + final_exp: exponent = sum of products of the discrete logs of the prime-order parts (cofactor-torsion parts, of order coprime to r, pair to one -- which is why a missing subgroup check makes s+T a second valid signature); result is one iff the exponent vanishes (non-degeneracy)',
